@@ -53,10 +53,10 @@ goes negative, no channel is closed twice -/
 theorem noCrash_step {s s' : St} {e : Ev} (h : Good s) (he : GoodE s) (hok : envOK s e = true)
     (hc : s.crashed = false) (hs : step s e = some s') : s'.crashed = false := by
   obtain ⟨st, sEnter, sp, kEnter, kDecided, kWait, kClean, lp, pp, abortClosed, nbClosed, wg, writing, res, opens, crashed,
-    fuel, flag, rEnter, rSend, rWait, runOver, stopsDone⟩ := s
-  obtain ⟨h1, h2, h3, h4, h5, h6, h7, h8, h9, h10, h11, h12, h13, h14, h15⟩ := h
+    fuel, flag, rEnter, rSend, rWait, runOver, stopsDone, asm⟩ := s
+  obtain ⟨h1, h2, h3, h4, h5, h6, h7, h8, h9, h10, h11, h12, h13, h14, h15, h16, h17, h18⟩ := h
   obtain ⟨e1, e2, e3, e4⟩ := he
-  dsimp only [stoppers] at h1 h2 h3 h4 h5 h6 h7 h8 h9 h10 h11 h12 h13 h14 h15 e1 e2 e3 e4 hc
+  dsimp only [stoppers] at h1 h2 h3 h4 h5 h6 h7 h8 h9 h10 h11 h12 h13 h14 h15 h16 h17 h18 e1 e2 e3 e4 hc
   cases e <;> simp only [envOK, stoppers] at hok <;> lc_open hs
   all_goals try (have hser := e1 (by omega))
   all_goals ((try simp only [deactivate]) <;> (try split) <;>
@@ -108,9 +108,9 @@ theorem lc_inv_wg_nonneg (o : Bool) (s s' : St) (h : Reach o s)
     s.wg = 1 ∧ s'.wg = 0 ∧ s'.crashed = false := by
   have hg := lc_inv o s h
   obtain ⟨st, sEnter, sp, kEnter, kDecided, kWait, kClean, lp, pp, abortClosed, nbClosed, wg, writing, res, opens, crashed,
-    fuel, flag, rEnter, rSend, rWait, runOver, stopsDone⟩ := s
-  obtain ⟨h1, h2, h3, h4, h5, h6, h7, h8, h9, h10, h11, h12, h13, h14, h15⟩ := hg
-  dsimp only at h1 h2 h3 h4 h5 h6 h7 h8 h9 h10 h11 h12 h13 h14 h15
+    fuel, flag, rEnter, rSend, rWait, runOver, stopsDone, asm⟩ := s
+  obtain ⟨h1, h2, h3, h4, h5, h6, h7, h8, h9, h10, h11, h12, h13, h14, h15, h16, h17, h18⟩ := hg
+  dsimp only at h1 h2 h3 h4 h5 h6 h7 h8 h9 h10 h11 h12 h13 h14 h15 h16 h17 h18
   rcases hs with hs | hs <;> lc_open hs <;>
     simp_all [deactivate, LPc.alive, LPc.working, PPc.alive, SPc.inStarting, SPc.owner, SrcState.running]
 
@@ -120,10 +120,35 @@ theorem lc_inv_no_double_close (o : Bool) (s s' : St) (h : Reach o s) (hs : step
     s.nbClosed = false ∧ s'.crashed = false := by
   have hg := lc_inv o s h
   obtain ⟨st, sEnter, sp, kEnter, kDecided, kWait, kClean, lp, pp, abortClosed, nbClosed, wg, writing, res, opens, crashed,
-    fuel, flag, rEnter, rSend, rWait, runOver, stopsDone⟩ := s
+    fuel, flag, rEnter, rSend, rWait, runOver, stopsDone, asm⟩ := s
   have h7 := hg.prod_alive
   dsimp only at h7
   lc_open hs <;> simp_all [PPc.alive]
+
+/-! ### At most one acquisition step pending -/
+
+/-- **C10_one_acquisition_step**: for a hardware-style source (`opens`: each `getNextBlock` call launches an
+assembler goroutine that delivers one block or, when the run ends, closes `nextBlock`), in every reachable state
+at most ONE acquisition step is pending — exactly one while the loop is in its select or serves a request and
+`nextBlock` is open, none otherwise (in particular serving k requests does not launch k more) — so `nextBlock`
+is closed by exactly one of them (`lc_inv_no_double_close`).  Other sources never have one. -/
+theorem C10_one_acquisition_step (o : Bool) (s : St) (h : Reach o s) :
+    s.asm ≤ 1 ∧ (s.asm = if s.opens = true ∧ s.nbClosed = false ∧ s.lp.serving = true then 1 else 0) ∧
+    (s.opens = false → s.asm = 0) := by
+  have hg := lc_inv o s h
+  refine ⟨hg.asm_le, hg.asm_eq, ?_⟩
+  intro ho
+  have := hg.asm_eq
+  simpa [ho] using this
+
+/-- serving a request leaves the number of pending acquisition steps unchanged -/
+theorem C10_request_keeps_step (s s' : St) (n : Nat) (w : WEff)
+    (hs : step s (.gotRequest n w) = some s' ∨ step s .requestDone = some s' ∨ step s .reply = some s') :
+    s'.asm = s.asm := by
+  rcases hs with hs | hs | hs <;> (unfold step at hs; split at hs)
+  all_goals first
+    | contradiction
+    | (dsimp only at hs; repeat' split at hs) <;> first | contradiction | (simp only [Option.some.injEq] at hs; subst hs; rfl)
 
 /-! ### Atomicity of Stop's decision -/
 
@@ -248,9 +273,9 @@ theorem C10_no_stuck_state (o : Bool) (s : St) (h : ReachE o s) (hin : starters 
     ∃ e s', e.isEnv = false ∧ step s e = some s' := by
   have hall := reachE_allGood h
   obtain ⟨st, sEnter, sp, kEnter, kDecided, kWait, kClean, lp, pp, abortClosed, nbClosed, wg, writing, res, opens, crashed,
-    fuel, flag, rEnter, rSend, rWait, runOver, stopsDone⟩ := s
-  obtain ⟨⟨h1, h2, h3, h4, h5, h6, h7, h8, h9, h10, h11, h12, h13, h14, h15⟩, ⟨e1, e2, e3, e4⟩, hw, hc⟩ := hall
-  dsimp only [stoppers, GoodW] at h1 h2 h3 h4 h5 h6 h7 h8 h9 h10 h11 h12 h13 h14 h15 e1 e2 e3 e4 hw hc
+    fuel, flag, rEnter, rSend, rWait, runOver, stopsDone, asm⟩ := s
+  obtain ⟨⟨h1, h2, h3, h4, h5, h6, h7, h8, h9, h10, h11, h12, h13, h14, h15, h16, h17, h18⟩, ⟨e1, e2, e3, e4⟩, hw, hc⟩ := hall
+  dsimp only [stoppers, GoodW] at h1 h2 h3 h4 h5 h6 h7 h8 h9 h10 h11 h12 h13 h14 h15 h16 h17 h18 e1 e2 e3 e4 hw hc
   subst hc
   simp only [starters, stoppers] at hin
   -- a Stop caller inside its lock section always completes it
@@ -326,7 +351,11 @@ theorem C10_no_stuck_state (o : Bool) (s : St) (h : ReachE o s) (hin : starters 
       exact stuck_mk _ (.gotClosed) rfl (by simp [step, this])
     | run =>
       have hnb : nbClosed = false := (h7 (by simp [PPc.alive])).1
-      exact stuck_mk _ (.abortSeen) rfl (by simp [step, habort, hnb])
+      have hasm : opens = true → asm > 0 := by
+        intro ho
+        simp [ho, hnb, LPc.serving] at h17
+        omega
+      exact stuck_mk _ (.abortSeen) rfl (by simp [step, habort, hnb]; exact hasm)
     | tick => exact stuck_mk _ (.send) rfl (by simp [step])
     | send => exact stuck_mk _ (.gotBlock) rfl (by simp [step])
     | sendErr => exact stuck_mk _ (.gotError) rfl (by simp [step])
@@ -363,10 +392,10 @@ theorem C10_stop_measure (s s' : St) (e : Ev) (hg : Good s) (hw : GoodW s) (hsd 
     (henv : e.isEnv = false) (hwf : e.wf = true) (hs : step s e = some s') :
     measure s' < measure s ∧ ShuttingDown s' := by
   obtain ⟨st, sEnter, sp, kEnter, kDecided, kWait, kClean, lp, pp, abortClosed, nbClosed, wg, writing, res, opens, crashed,
-    fuel, flag, rEnter, rSend, rWait, runOver, stopsDone⟩ := s
-  obtain ⟨h1, h2, h3, h4, h5, h6, h7, h8, h9, h10, h11, h12, h13, h14, h15⟩ := hg
+    fuel, flag, rEnter, rSend, rWait, runOver, stopsDone, asm⟩ := s
+  obtain ⟨h1, h2, h3, h4, h5, h6, h7, h8, h9, h10, h11, h12, h13, h14, h15, h16, h17, h18⟩ := hg
   obtain ⟨hd1, hd2, hd3⟩ := hsd
-  dsimp only [GoodW] at h1 h2 h3 h4 h5 h6 h7 h8 h9 h10 h11 h12 h13 h14 h15 hd1 hd2 hd3 hw
+  dsimp only [GoodW] at h1 h2 h3 h4 h5 h6 h7 h8 h9 h10 h11 h12 h13 h14 h15 h16 h17 h18 hd1 hd2 hd3 hw
   subst hd1 hd2
   have habort : pp.alive → abortClosed = true := by
     intro hp
@@ -422,8 +451,8 @@ theorem C10_after_stops_inactive (o : Bool) (s : St) (h : ReachE o s) (hd : s.st
       s.res = false := by
   have hall := reachE_allGood h
   obtain ⟨st, sEnter, sp, kEnter, kDecided, kWait, kClean, lp, pp, abortClosed, nbClosed, wg, writing, res, opens, crashed,
-    fuel, flag, rEnter, rSend, rWait, runOver, stopsDone⟩ := s
-  obtain ⟨⟨h1, h2, h3, h4, h5, h6, h7, h8, h9, h10, h11, h12, h13, h14, h15⟩, ⟨e1, e2, e3, e4⟩, hw, hc⟩ := hall
+    fuel, flag, rEnter, rSend, rWait, runOver, stopsDone, asm⟩ := s
+  obtain ⟨⟨h1, h2, h3, h4, h5, h6, h7, h8, h9, h10, h11, h12, h13, h14, h15, h16, h17, h18⟩, ⟨e1, e2, e3, e4⟩, hw, hc⟩ := hall
   dsimp only [stoppers, starters, GoodW] at *
   obtain ⟨q1, q2, q3⟩ := e4 hd
   subst q1 q2
@@ -489,8 +518,8 @@ theorem C10_restart (o : Bool) (s : St) (fuel : Nat) (h : Reach o s) (hc : s.cra
       s'.abortClosed = false ∧ s'.nbClosed = false ∧ s'.sp = .idle := by
   have hg := lc_inv o s h
   obtain ⟨st, sEnter, sp, kEnter, kDecided, kWait, kClean, lp, pp, abortClosed, nbClosed, wg, writing, res, opens, crashed,
-    fuel0, flag, rEnter, rSend, rWait, runOver, stopsDone⟩ := s
-  obtain ⟨h1, h2, h3, h4, h5, h6, h7, h8, h9, h10, h11, h12, h13, h14, h15⟩ := hg
+    fuel0, flag, rEnter, rSend, rWait, runOver, stopsDone, asm⟩ := s
+  obtain ⟨h1, h2, h3, h4, h5, h6, h7, h8, h9, h10, h11, h12, h13, h14, h15, h16, h17, h18⟩ := hg
   dsimp only at *
   subst hc hst hse
   have hwg : wg = 0 := by simpa [SrcState.running] using h1
@@ -510,9 +539,9 @@ theorem C10_failed_start_restartable (o : Bool) (s s' : St) (h : Reach o s) (hs 
       ∃ s'', run s' [.callStart, .startOk] = some s'' ∧ s''.sp = .starting := by
   have hg := lc_inv o s h
   obtain ⟨st, sEnter, sp, kEnter, kDecided, kWait, kClean, lp, pp, abortClosed, nbClosed, wg, writing, res, opens, crashed,
-    fuel0, flag, rEnter, rSend, rWait, runOver, stopsDone⟩ := s
-  obtain ⟨h1, h2, h3, h4, h5, h6, h7, h8, h9, h10, h11, h12, h13, h14, h15⟩ := hg
-  dsimp only at h1 h2 h3 h4 h5 h6 h7 h8 h9 h10 h11 h12 h13 h14 h15
+    fuel0, flag, rEnter, rSend, rWait, runOver, stopsDone, asm⟩ := s
+  obtain ⟨h1, h2, h3, h4, h5, h6, h7, h8, h9, h10, h11, h12, h13, h14, h15, h16, h17, h18⟩ := hg
+  dsimp only at h1 h2 h3 h4 h5 h6 h7 h8 h9 h10 h11 h12 h13 h14 h15 h16 h17 h18
   lc_open hs
   simp_all [SPc.inStarting, SPc.owner, LPc.alive, LPc.working, PPc.alive, SrcState.running, run, step]
   grind
@@ -530,9 +559,9 @@ theorem C10_failed_startrun_restartable (o : Bool) (s s' : St) (h : Reach o s)
       ∃ s'', run s' [.callStart, .startOk] = some s'' ∧ s''.sp = .starting := by
   have hg := lc_inv o s h
   obtain ⟨st, sEnter, sp, kEnter, kDecided, kWait, kClean, lp, pp, abortClosed, nbClosed, wg, writing, res, opens, crashed,
-    fuel0, flag, rEnter, rSend, rWait, runOver, stopsDone⟩ := s
-  obtain ⟨h1, h2, h3, h4, h5, h6, h7, h8, h9, h10, h11, h12, h13, h14, h15⟩ := hg
-  dsimp only at h1 h2 h3 h4 h5 h6 h7 h8 h9 h10 h11 h12 h13 h14 h15
+    fuel0, flag, rEnter, rSend, rWait, runOver, stopsDone, asm⟩ := s
+  obtain ⟨h1, h2, h3, h4, h5, h6, h7, h8, h9, h10, h11, h12, h13, h14, h15, h16, h17, h18⟩ := hg
+  dsimp only at h1 h2 h3 h4 h5 h6 h7 h8 h9 h10 h11 h12 h13 h14 h15 h16 h17 h18
   lc_open hs
   all_goals simp only [deactivate]
   all_goals split
